@@ -356,6 +356,12 @@ LOOP:
 						c.run(ctx, job)
 					}(job)
 					c.resetTimer()
+				} else {
+					// The timer was aimed at a job that has
+					// since been removed or replaced.  Aim it
+					// at the current head; otherwise nothing
+					// would ever fire again.
+					c.resetTimer()
 				}
 			}
 			c.Unlock()
